@@ -668,12 +668,14 @@ class Ctx:
             self.run.ob(oid, core.DISCHARGED, "z3", dt, text=txt[:1500], klass=klass)
             self.assume(claim)
             return True
+        m = None
         if r == z3.sat:
             self.solver.push()
             self.solver.add(z3.Not(claim))
-            self.solver.check()
-            m = self.solver.model()
+            # the second check can time out where the first did not (non-linear integer / real mixes): then the verdict is `unknown`, not a crash
+            m = self.solver.model() if self.solver.check() == z3.sat else None
             self.solver.pop()
+        if r == z3.sat and m is not None:
             wit = {str(d): str(m[d]) for d in m.decls()}
             detail = f"counter-model: {wit}; path={self.trace}; claim={claim}"
             self.run.ob(oid, core.FAILED, "z3", dt, detail=detail, witness=wit, replay=replay, text=txt[:1500], klass=klass)
